@@ -106,8 +106,8 @@ add("C02", "model_checking",
     "DESIGN.md 2/C02", "E3+E4")
 add("C17", "exploration",
     "For every generated stack (same grammar cover as C02 plus helper stacks of depth 1..10) built through the positional parameter-pack helper with pairwise distinct configuration values: the configuration reported after i get_backend() steps equals the i-th argument field by field, "
-    "and a field rebuilt recursively from the reported configurations and storage equals the original at every in-domain coordinate and in its dump bytes; a second assignment with extreme values in every blob (bounds beyond the extents beneath, reversed boxes, type extremes, -0.0, infinities, NaN) is read back bit for bit.",
-    "two configuration assignments per stack (pairwise distinct ordinary values with lookups; extreme / special values read back bit for bit without lookups); rebuilt field compared on the C02 alphabet",
+    "and a field rebuilt recursively from the reported configurations and storage equals the original at every in-domain coordinate and in its dump bytes; a second assignment with extreme values in every blob (bounds beyond the extents beneath, reversed boxes, type extremes, -0.0, infinities, NaN) is read back bit for bit, and so is an empty field (first extent 0).",
+    "three configuration assignments per stack (pairwise distinct ordinary values with lookups; extreme / special values and an empty field read back bit for bit without lookups); rebuilt field compared on the C02 alphabet",
     "bounded-exhaustive enumeration of stacks (grammar cover + depth 1..10 helper chains) with read-back / rebuild oracle on the implementation",
     "DESIGN.md 2/C17", "E3+E4")
 add("C06", "model_checking",
